@@ -74,6 +74,7 @@ func main() {
 	verbose := flag.Bool("v", false, "verbose")
 	trace := flag.Bool("trace", false, "trace every interpreted instruction")
 	eager := flag.String("eager", "", "||-separated runtime-panic sites whose unwinding is executed eagerly")
+	feasSched := flag.Bool("feas-sched", false, "solver feasibility checks at loop back edges in sched mode too")
 	eagerAll := flag.Bool("eager-all", false, "execute every potential runtime panic eagerly")
 	flag.Parse()
 
@@ -109,13 +110,16 @@ func main() {
 	e.unwind = *unwind
 	e.noPOR = *noPOR
 	e.trace = *trace
+	if *verbose {
+		e.profile = map[string]int{}
+	}
 	e.eager = map[string]bool{}
 	for _, s := range strings.Split(*eager, "||") {
 		if s != "" {
 			e.eager[s] = true
 		}
 	}
-	e.noFeas = true
+	e.backEdgeFeas = *mode == "seq" || *feasSched
 	if *eagerAll {
 		e.eager = nil
 	}
@@ -142,6 +146,21 @@ func main() {
 	res.Merges = e.merges
 	res.Instrs = e.instrs
 	res.Terms = TS.next
+	if *verbose {
+		type kv struct {
+			k string
+			v int
+		}
+		var kvs []kv
+		for k, v := range e.profile {
+			kvs = append(kvs, kv{k, v})
+		}
+		sort.Slice(kvs, func(i, j int) bool { return kvs[i].v > kvs[j].v })
+		for i := 0; i < 8 && i < len(kvs); i++ {
+			fmt.Fprintf(os.Stderr, "profile: %8d terms at %s\n", kvs[i].v, kvs[i].k)
+		}
+		fmt.Fprintf(os.Stderr, "encoded: instrs=%d terms=%d merges=%d lazy=%d constraints=%d encode_ms=%d\n", e.instrs, TS.next, e.merges, len(e.lazyPanics), len(e.constraints), res.EncodeMs)
+	}
 	res.FeasQueries, res.FeasCut, res.FeasMs = e.feasN, e.feasCut, e.feasMs
 	if e.feas != nil {
 		e.feas.Close()
